@@ -544,6 +544,18 @@ var AncestorLoop = errors.New("ancestor loop detected")
 
 // DoAncestors calls the given function on this location and all of its ancestors in depth-first order.
 func (loc *Location) DoAncestors(ctx *Context, fn func(*Location) error) error {
+	return loc.doAncestors(ctx, fn, make(map[string]bool))
+}
+
+// doAncestors does the work for DoAncestors.  The names of the
+// locations on the current path are given by 'path' in order to
+// detect a chain of parents that loops back.
+func (loc *Location) doAncestors(ctx *Context, fn func(*Location) error, path map[string]bool) error {
+	if path[loc.Name] {
+		return AncestorLoop
+	}
+	path[loc.Name] = true
+	defer delete(path, loc.Name)
 
 	parents, err := loc.getParents(ctx)
 	if err != nil {
@@ -575,7 +587,7 @@ func (loc *Location) DoAncestors(ctx *Context, fn func(*Location) error) error {
 			if err != nil {
 				return err
 			}
-			if err = p.DoAncestors(ctx, fn); err != nil {
+			if err = p.doAncestors(ctx, fn, path); err != nil {
 				return err
 			}
 		}
